@@ -1,10 +1,10 @@
 PROOFS = [
-  dict(name="quote_roundtrip", properties=["C17"], entry="h_quote_roundtrip", units=["harness.c"], mode="plain", unwind=50, timeout=600, min_tagged=6,
+  dict(name="quote_roundtrip", slow=True, properties=["C17"], entry="h_quote_roundtrip", units=["harness.c"], mode="plain", unwind=50, timeout=600, min_tagged=6,
        title="quote.c quote()/quote_need()/doit(): for every local part of <= 6 bytes (all bytes but NUL and LF) the SMTP form decodes back to it and hides every special inside quotes",
        functions=["quote.c:quote", "quote.c:quote_need", "quote.c:doit"], bounded="local parts of at most 6 bytes over the full byte alphabet except NUL and LF; fixed-capacity stralloc model",
        canaries=[dict(name="backslash-not-escaped", file="quote.c", literal=True, pattern="   if ((ch == '\\r') || (ch == '\\n') || (ch == '\"') || (ch == '\\\\'))", repl="   if ((ch == '\\r') || (ch == '\\n') || (ch == '\"'))", expect=r"C17"),
                  dict(name="trailing-dot-not-quoted", file="quote.c", literal=True, pattern=" if (s[n - 1] == '.') return 1;\n", repl="", expect=r"C17: an unquoted local part is a dot-atom")]),
-  dict(name="quote2_split", properties=["C17"], entry="h_quote2_split", units=["harness.c", "repo:str_rchr.c", "repo:str_chr.c"], mode="plain", unwind=50, timeout=600, min_tagged=3,
+  dict(name="quote2_split", slow=True, properties=["C17"], entry="h_quote2_split", units=["harness.c", "repo:str_rchr.c", "repo:str_chr.c"], mode="plain", unwind=50, timeout=600, min_tagged=3,
        title="quote.c quote2(): the part before the LAST @ is quoted, the domain appended unchanged, for every address of <= 9 bytes",
        functions=["quote.c:quote2"], bounded="addresses of at most 9 bytes over the full byte alphabet except NUL",
        canaries=[dict(name="split-at-first-at", file="quote.c", literal=True, pattern=" j = str_rchr(s,'@');", repl=" j = str_chr(s,'@');", expect=r"C17: the local part - everything before the LAST")]),
